@@ -127,6 +127,20 @@ CLAIMED = {
                  "all workers start in the consumer's first step. 'Never hangs' = no_deadlock + the decreasing potential, i.e. termination under any scheduler that lets some enabled actor move; OS-level starvation and killed processes are outside. "
                  "Open finding: a filter output None is mistaken for the output pill.",
             technique="Coq proof (inductive invariant over interleavings, deadlock freedom, termination measure) + scheduled co-simulation of the real class with the extracted model + real-process smoke runs", design="§5 C08"),
+ "C01": dict(text="Coq theorems (C01/Props.v over Exp/Model.v): configuration_independence - for ANY deterministic evaluation function, ANY triples (objects shared in any pattern) and ANY two ways of cutting ANY permutations of MakeTasks' tasks into groups "
+                  "evaluated one after the other on freshly unpickled objects (in-process = one group; workers = one group per chunk, any arrival order) the same rows are recorded for the same triples; rows_functional; ids_injective; source_shape "
+                  "(the copy rule, id assignment, materialisation and per-task handler are the ones the translator found in process.py on this run). The real MakeTasks/ChunkTasks/ProcessTasks run on stub components for every maxtasksperchunk, "
+                  "in-process and with pickled chunks, and are compared with the extracted model; spec-built real experiments (chunk()/cache() prefixes, shuffle fan-out, logged data, built-in and stateful user learners, SequentialCB/RejectionCB/function evaluators) "
+                  "run under seven (processes, maxchunksperchild, maxtasksperchunk) configurations with real worker processes, and twice in a row: the four tables must be identical, timing columns aside.",
+            note="The evaluation itself is an abstract deterministic function of (environment, learner state, evaluator): that the built-in components are such functions (C04/C05/C06/C15) and that no per-process global state leaks between tasks "
+                 "is decided by the differential real runs, not by the theorem. 'Every OS schedule of the workers' enters the model as 'any grouping and any arrival order'; C07 gives the id-sorted table building, C08 exactly-once delivery. Trusted: Coq kernel, translator, extraction+driver, harness.",
+            technique="Coq proof (permutation/grouping invariance by induction with a freshness invariant) over translator-checked source shape + extracted-model correspondence + differential real runs across configurations", design="§5 C01"),
+ "C03": dict(text="Coq theorems (C03/Props.v over Exp/Model.v): isolation - for ANY deterministic evaluation function, ANY learner objects and ANY list of triples (shared objects, duplicates), however a permutation of the tasks is cut into groups "
+                  "evaluated on the same objects, a row set is recorded for a triple exactly when that triple evaluated alone on pristine objects completes, and it is that row set (invariant: every learner a remaining task will touch is still pristine, "
+                  "from MakeTasks' copy rule); failing_triple_loses_only_its_rows; source_shape (translator). Real MakeTasks/ChunkTasks/ProcessTasks on stub components vs the extracted model and vs each triple alone (incl. failing evaluations, "
+                  "shared learners left pristine); real experiments with shared stateful learners, batched and unbatched environments and components failing in params / k-th read / predict / learn, every triple also run alone in a fresh worker process.",
+            note="As C01: the evaluation is abstract; deepcopy/pickle fidelity, class-level caches and other per-process state are observed by the real runs only. 'Reported in the log' is not checked. Trusted: Coq kernel, translator, extraction+driver, harness.",
+            technique="Coq proof (freshness invariant over arbitrary task orders and groupings) over translator-checked source shape + extracted-model correspondence + alone-vs-together oracle on real runs", design="§5 C03"),
 }
 NA_REASON = "check not built yet in this revision (planned, see DESIGN.md §8); no claim is made"
 def main():
